@@ -195,7 +195,7 @@ class C02(Check):
             'all event logs must be identical; plus the FIFO invariant on the activation/schedule streams. non-trivial = a time '
             'step with >=3 activations of distinct activities in a program using >=3 primitive families; distinct by sha1.')
     quick_boost = False
-    budgets = {'quick': dict(examples=900, procs=2), 'thorough': dict(examples=12000, procs=4)}
+    budgets = {'quick': dict(examples=900, procs=2), 'thorough': dict(examples=40000, procs=4)}
     level_text = ('Differential testing across configurations: identical normalised event logs (which activity does what, at which '
                   'time, in which order, with which values) in 13 executions per program that differ in process, hash seed, heap '
                   'layout, wait-queue backend and assertion mode; and within each time step activations happen in the order of '
